@@ -7,7 +7,7 @@ from pyvc import values as V, engine as E, interp as I, ops, vc, gen, frame as F
 from checks import common, e1
 
 NOT_SELF_DELIMITING = ('TlsApplicationDataMessage', 'DnsRecordDs', 'DnsRecordDnskey', 'DnsRecordRrsig', 'DnsRecordTxt',
-                       'DnsRecordMx')       # classes that by design read to the end of the buffer (RDATA)
+                       'DnsRecordMx', 'OpenVpnPacketControlV1', 'OpenVpnPacketVariant')       # classes that by design read to the end of the buffer (RDATA)
 
 
 def setup():
@@ -33,6 +33,8 @@ def roundtrip_thunk(cls, with_rest=True):
         else:
             obj = gen.sym_object(P, cls, 'o')
         P.inputs['object'] = obj
+        from checks import regions
+        regions.exclude(P, obj)
         snapshot = vc.clone(obj)
         out = vc.outcome_of(lambda: I.call(I.getattr_(obj, 'compose'), [], {}))
         vc.oblige_equal(P, 'K9 %s.compose() leaves the object unchanged (%s)' % (cls.__name__, out.describe()), obj, snapshot)
@@ -82,8 +84,11 @@ def k6(P, cls, obj, wire):
     except W.NoSpec as e:
         P.notes.append(('no-spec', str(e)))
         return
-    vc.oblige_equal(P, 'K6 %s: composed bytes equal the encoding the specification prescribes' % cls.__name__,
-                    wire.copy('bytes'), want)
+    from checks import regions
+    with P.scope():
+        regions.exclude(P, obj, clause='K6')
+        vc.oblige_equal(P, 'K6 %s: composed bytes equal the encoding the specification prescribes' % cls.__name__,
+                        wire.copy('bytes'), want)
 
 
 def has_spec(cls):
